@@ -5,4 +5,5 @@ CONSTANTS
   MaxLen = @MAXLEN@
   StrCap = @STRCAP@
   Prefix <- PrefixDef
-INVARIANTS TypeOK PdaIsGrammar StrictWithinStructural DepthIsError PrefixFree
+  Recover = @RECOVER@
+INVARIANTS TypeOK PdaIsGrammar StrictWithinStructural DepthIsError PrefixFree InsertedIsInvalid
